@@ -1,0 +1,25 @@
+//! Verification seam H3 (cfg `excsn_fibre_verif`, never under loom): the hybrid locks report
+//! "about to acquire", "acquired by a try_*" and "released" to a callback installed by a test
+//! harness, so that an external scheduler can make every critical-section boundary of code built
+//! on these locks a scheduling point. With no callback installed (the default) these are no-ops.
+use std::sync::atomic::{AtomicUsize, Ordering};
+
+/// `event`: 0 = about to acquire (blocking form), 1 = about to try (try_* form),
+/// 2 = a try_* form acquired, 3 = released. `mode`: 0 = exclusive (mutex / write), 1 = shared (read).
+pub type LockHook = fn(event: u8, addr: usize, mode: u8);
+
+static HOOK: AtomicUsize = AtomicUsize::new(0);
+
+pub fn set_lock_hook(h: Option<LockHook>) {
+  HOOK.store(h.map_or(0, |f| f as usize), Ordering::SeqCst);
+}
+
+#[inline]
+pub(crate) fn emit(event: u8, addr: usize, mode: u8) {
+  let p = HOOK.load(Ordering::Relaxed);
+  if p != 0 {
+    // SAFETY: only `set_lock_hook` stores here, and it stores a `LockHook`.
+    let f: LockHook = unsafe { std::mem::transmute::<usize, LockHook>(p) };
+    f(event, addr, mode);
+  }
+}
